@@ -301,5 +301,14 @@ theorem addNode_inv {pg : PUG U} {st st' : FragSt U} {L : List (Lay U)} {n : Nod
   · -- spTot
     rw [c5, a15, hi.spTot]
     simp [Rat.add_zero]
+  · -- disj
+    apply List.pairwise_append.mpr
+    refine ⟨hi.disj, List.pairwise_singleton _ _, ?_⟩
+    intro a ha b hb
+    simp only [List.mem_singleton] at hb
+    subst hb
+    have := hi.rng a ha
+    show a.hi ≤ st2.counter
+    omega
 
 end PS.Sp
